@@ -86,12 +86,16 @@ func RuleI1(c *Ctx) {
 				if !ok {
 					return false
 				}
-				id, ok := ast.Unparen(be.X).(*ast.Ident)
-				if !ok {
-					return false
+				// `err != nil` with err := validate(p), or - handed over by a helper's summary -
+				// the call itself compared with nil
+				var def *ast.CallExpr
+				switch x := ast.Unparen(be.X).(type) {
+				case *ast.Ident:
+					def, _ = ast.Unparen(cf.Resolve(x)).(*ast.CallExpr)
+				case *ast.CallExpr:
+					def = x
 				}
-				def, ok := ast.Unparen(cf.Resolve(id)).(*ast.CallExpr)
-				if !ok || len(def.Args) != 1 || !cfgx.SameExpr(info, def.Args[0], p) {
+				if def == nil || len(def.Args) != 1 || !(cfgx.SameExpr(info, def.Args[0], p) || cf.SameResolved(def.Args[0], p)) {
 					return false
 				}
 				g := Callee(info, def)
@@ -119,7 +123,28 @@ func RuleI1(c *Ctx) {
 				// shows the validator something other than what the document says - the
 				// components it exists to refuse ('.', '..') may already be gone.
 				rawKey := c.P.DeclName(cs.Decl) + ":validated-as-written"
-				if how := transformedKey(info, cf.Resolve(p)); how == "" {
+				how := transformedKey(info, cf.Resolve(p))
+				// the name may come out of a helper that reads and validates it: judge what the
+				// helper hands out on success
+				if id, ok := ast.Unparen(cf.Resolve(p)).(*ast.Ident); ok && how == "" {
+					if rhs, idx, ok := cf.TupleDefOf(info.ObjectOf(id)); ok {
+						if hc, ok := ast.Unparen(rhs).(*ast.CallExpr); ok {
+							if hd := c.P.Decl(Callee(info, hc)); hd != nil {
+								hpk := c.P.PkgOfDecl(hd)
+								ros := c.resultObjs(hpk, hd, retSuccess)
+								if idx < len(ros) && ros[idx] != nil {
+									hcf := c.CFG(hpk, hd.Body)
+									if def := hcf.DefOf(ros[idx]); def != nil {
+										how = transformedKey(hpk.TypesInfo, hcf.Resolve(def))
+									} else if hcf.AssignOf(ros[idx]) == nil || assignedAnywhere(hpk.TypesInfo, hd.Body, ros[idx]) {
+										how = "a value reassigned in " + hd.Name.Name
+									}
+								}
+							}
+						}
+					}
+				}
+				if how == "" {
 					sc.Holds(rawKey, pos, "the validated name is the parameter lexeme's value, untransformed")
 				} else {
 					sc.Violation(rawKey, pos, "the name validator is applied to a transformed name ("+how+"), not to the INCLUDE parameter as written: names the validator exists to refuse ('./x.jst', 'sub/../x.jst') are rewritten into acceptable ones before it looks")
